@@ -2,7 +2,7 @@
   Well-formedness of a loaded hierarchy (the predicate of property C02), as decidable Bool-valued
   functions so that the driver can evaluate them on every explored case.
 -/
-import PyhamModel.Model.Mapper
+import PyhamModel.Model.Profile
 namespace Pyham
 
 /-- `k` lives exactly one level below `t` -/
@@ -81,5 +81,9 @@ def Ham.regExact (H : Ham) : Bool :=
     let regd := (H.reg.filter (·.1 == t)).map (·.2)
     let there := ((H.nodesAt t).map fun l => l.node.key)
     regd.Nodup && regd.all there.contains && there.all regd.contains
+
+/-- `len(genome.genes)` is the number of members found by walking the families (C04) -/
+def Ham.sizesExact (H : Ham) : Bool :=
+  H.tree.allTaxa.all fun t => H.genomeSize t == (H.nodesAt t).length
 
 end Pyham
